@@ -13,7 +13,8 @@ from values import canon
 PROP = 'C02'
 THEOREMS = ['C02_encoder_in_spec', 'C02_decoder_accepts_spec', 'C02_layout_sound', 'C02_audit_accepts_spec', 'C02_spec_longs',
             'C02_spec_record', 'C02_spec_array', 'C02_spec_union', 'C02_lax_layout', 'C02_audit_example',
-            'C02_audit_only_spec_refuted', 'C02_decoder_padding_invariant', 'C02_padded_long_decodes', 'C02_padding_example']
+            'C02_audit_only_spec_refuted', 'C02_decoder_padding_invariant', 'C02_padded_long_decodes', 'C02_padding_example',
+            'C02_padded_long_accepted_outside_spec']
 CFG = '(cfg 536870912 56 80)'
 RULE = ('(schema, value) pairs as in C01 (all primitive / logical / named / recursive kinds); per pair the '
         'implementation encoding and up to 6 specification-legal layouts from the certified generator: block '
